@@ -83,8 +83,13 @@ def _run(shard, nshards):
                         for seg in set(lab.values()):
                             cn = sum(1 for k, v in lab.items() if v == seg and k[0] == "N")
                             cl = sum(1 for k, v in lab.items() if v == seg and k[0] == "L")
-                            if int(sizes.loc[seg, "node"]) != cn or int(sizes.loc[seg, "link"]) != cl:
-                                ok = False
+                            try:
+                                if int(sizes.loc[seg, "node"]) != cn or int(sizes.loc[seg, "link"]) != cl:
+                                    ok = False
+                            except (KeyError, ValueError, TypeError):
+                                ok = False            # the size table has no (or no usable) row for a segment that has members
+                        if set(sizes.index) != set(lab.values()):
+                            ok = False                # ... and no row for a segment without members
                         # the layer is a set of valves: a row listed twice and another row order describe the same layer
                         if ok and valves and idx % 3 == 0:
                             vl2 = pd.DataFrame([valves[0]] + valves[::-1], columns=["link", "node"])
@@ -101,6 +106,23 @@ def _run(shard, nshards):
                             if not same:
                                 ok = False
                                 failures.append(dict(nodes=nodes, links=links, valves=[valves[0]] + valves[::-1], duplicated_row_or_row_order_changes_the_segments=True))
+                        # an UNDIRECTED multigraph of the same network (wn.to_graph().to_undirected()) gives the same segments, and the caller's graph
+                        # is left as it was (it is reused for the next call)
+                        if ok and idx % 3 == 2:
+                            G2 = G.to_undirected()
+                            before_edges = sorted((min(u, v), max(u, v), k) for u, v, k in G2.edges(keys=True))
+                            try:
+                                ns4, ls4, sizes4 = wntr.metrics.valve_segments(G2, vl.copy())
+                                lab4 = {("N", n): int(ns4[n]) for n in nodes}
+                                lab4.update({("L", l): int(ls4[l]) for l, a, b in links})
+                                same = all(v >= 1 for v in lab4.values()) and all((lab4[x] == lab4[y]) == (ref[x] == ref[y]) for x, y in itertools.combinations(elems, 2))
+                                same = same and sorted((min(u, v), max(u, v), k) for u, v, k in G2.edges(keys=True)) == before_edges and \
+                                    sorted((min(u, v), max(u, v), k) for u, v, k in G.edges(keys=True)) == before_edges
+                            except Exception as e:
+                                same = False
+                            if not same:
+                                ok = False
+                                failures.append(dict(nodes=nodes, links=links, valves=valves, undirected_input_gives_other_segments_or_is_modified=True))
                         # the layer is a table with NAMED columns: their order and further columns (wntr.gis.snap adds some) do not matter
                         if ok and valves and idx % 3 == 1:
                             vl3 = pd.DataFrame({"snap_distance": [0.5] * len(valves), "node": [v[1] for v in valves], "link": [v[0] for v in valves]})
@@ -167,7 +189,7 @@ def _run(shard, nshards):
         return dict(evaluations=evals, distinct_nontrivial=len(distinct), failures=failures[:10], samples=samples, exhaustive=True,
                     scope="shard %d/%d of ALL multigraphs with 2..%d nodes and 1..%d links (parallel links included) x ALL valve layers (any subset of the "
                           "2 x links link-end incidences): labels positive, same label iff joined without passing a valve (union-find reference), segment "
-                          "sizes count members, a duplicated row / reversed row order (every third case) and another column order with an extra column (every third case) give the same segments, valve_segment_attributes (other bounding valves, relative demand / length gained, 0 when both sides equal; every second case also with the rows reversed under their own numbers and demands / lengths in other units)"
+                          "sizes count members, a duplicated row / reversed row order (every third case) and another column order with an extra column (every third case) give the same segments, an undirected input graph (every third case) gives the same segments and is not modified, valve_segment_attributes (other bounding valves, relative demand / length gained, 0 when both sides equal; every second case also with the rows reversed under their own numbers and demands / lengths in other units)"
                           % (shard, nshards, max_nodes, max_links))
     return run
 
